@@ -171,8 +171,11 @@ def run(prog, rep):
     if h is None:
         raise AnalysisError("anchor vanished: tdfUtils.is_iterable")
     body = [s_ for s_ in h.node.body if not (isinstance(s_, ast.Expr) and isinstance(s_.value, ast.Constant))]
-    good = len(body) == 1 and isinstance(body[0], ast.Try) and any(isinstance(x, ast.Call) and norm(x.func) == "iter" and [norm(a) for a in x.args] == h.params[:1] for b in body[0].body for x in ast.walk(b)) \
-        and any(isinstance(b, ast.Return) and norm(b.value) == "True" for b in body[0].body) \
+    # `return True` as the last statement of the try body, in its else clause, or right after it (the handler leaves): the same paths
+    after_ok = [b for b in (body[0].body[-1:] + body[0].orelse + body[1:]) if isinstance(b, ast.Return)] if body and isinstance(body[0], ast.Try) else []
+    good = len(body) in (1, 2) and isinstance(body[0], ast.Try) and not body[0].finalbody \
+        and any(isinstance(x, ast.Call) and norm(x.func) == "iter" and [norm(a) for a in x.args] == h.params[:1] for b in body[0].body for x in ast.walk(b)) \
+        and len(after_ok) == 1 and norm(after_ok[0].value) == "True" and len(body[0].handlers) == 1 \
         and any(hd.type is not None and norm(hd.type) == "TypeError" and any(isinstance(b, ast.Return) and norm(b.value) == "False" for b in hd.body) for hd in body[0].handlers)
     if good:
         rep.ok("event-values", "tdfUtils.is_iterable = try iter(obj) -> True except TypeError -> False")
